@@ -453,12 +453,18 @@ def gen_tag_ops(r, sig, fresh, n_ops):
       ops.append(['removetag', key, t])
     elif x < 0.78:
       ops.append(['cleartags', key])
-    elif x < 0.88:
+    elif x < 0.86:
       ops.append(['settags', key, r.sample(range(len(targets.TAGS)), r.randint(0, 3))])
     elif x < 0.895 and len(named) >= 2:
+      # ONE TaggedValue object assigned to two arguments, usually followed by a tag edit of one
       a, b = r.sample(named, 2)
       tags = r.sample(range(len(targets.TAGS)), r.randint(1, 2))
       ops.append(['setattr2', a, b, {'tv': tags, 'in': next(fresh.c) if r.random() < 0.7 else None}])
+      if r.random() < 0.7:
+        ops.append([r.choice(['addtag', 'removetag', 'cleartags']), r.choice([a, b])] +
+                   ([t] if ops[-1][0] != 'x' else []))
+        if ops[-1][0] == 'cleartags':
+          ops[-1] = ['cleartags', ops[-1][1]]
     elif x < 0.91:
       ops.append(['materialize'])
     elif x < 0.95:
